@@ -12,6 +12,7 @@ real code: two-stage build. Stage 1: cog generates Go with `builders: true, conv
 """
 import collections
 import json
+import zlib
 import os
 import re
 import shutil
@@ -155,9 +156,12 @@ class Walker:
             if len(call["args"]) != len(o["args"]):
                 self.gaps += 1
                 continue
-            val_arg = call["args"][a["src"] - 1]
+            io = [x for x in self.u["bind"]["go"][key]["opts"] if bc.norm_name(x["name"]) == bc.norm_name(o["name"])][0]
+            val_arg = call["args"][io["argpos"][a["src"]]]
             if a["m"] == "direct":
-                self.arg(val_arg, fk, ft, x)
+                for a2 in o["asgs"]:
+                    fk2, ft2 = bc.type_at(self.S, key, t, a2["path"])
+                    self.arg(call["args"][io["argpos"][a2["src"]]], fk2, ft2, at_path(v, a2["path"]))
             elif a["m"] == "append":
                 i = seen[o["name"]]
                 seen[o["name"]] += 1
@@ -166,7 +170,7 @@ class Walker:
                 else:
                     self.gaps += 1
             else:
-                karg = call["args"][a["key"] - 1]
+                karg = call["args"][io["argpos"][a["key"]]]
                 try:
                     mk = json.loads(karg["text"]) if karg["k"] == "lit" else None
                 except ValueError:
@@ -281,6 +285,24 @@ def run(ctx):
         raise core.Inconclusive("the catalogue changed: entry %d is no longer the replay's schema" % replay["entry_id"])
     vals, _ = bc.emit_values(ctx, batch.ids)
     n_values = sum(len(v) for v in vals.values())
+    n_pairs = 0
+    pair_unit = {}
+    if not ctx.quick() and not ctx.replay:
+        # thorough: root values differing from the base document at TWO members, on one input format per entry
+        pairs, _ = bc.emit_values(ctx, batch.ids, mode="pairs")
+        for eid, lst in pairs.items():
+            have = {sc.dumps(v["py"]) for v in vals[eid] if v["key"] == "Root"}
+            for v in lst:
+                if sc.dumps(v["py"]) in have:
+                    continue
+                v["n"] += 100000
+                v["pair"] = True
+                vals[eid].append(v)
+                n_pairs += 1
+        for eid in batch.ids:
+            us = sorted([u for u in batch.units.values() if u["id"] == eid and u["status"] == "ok" and u["bind"].get("go")], key=lambda u: u["fmt"])
+            if us:
+                pair_unit[eid] = us[(ctx.seed + eid) % len(us)]["pkg"]
     if replay:
         vals = {replay["entry_id"]: [{"id": replay["entry_id"], "key": replay["key"], "py": replay["value"], "n": 0}]}
     D, dproblems = bc.real_defaults(ctx, batch, langs=("go",))
@@ -300,6 +322,8 @@ def run(ctx):
         pl = bc.Planner(entry, u, "go", u["bind"]["go"])
         for v in vals.get(u["id"], []):
             if v["key"] not in u["bind"]["go"]:
+                continue
+            if v.get("pair") and pair_unit.get(u["id"]) != u["pkg"]:
                 continue
             g = u["glue"][bc.norm_name(u["bind"]["go"][v["key"]]["ir"]["name"])]
             if not g.get("converter"):
@@ -409,10 +433,13 @@ def run(ctx):
         elif "Rebuild" in violated:
             n = diff[0]
             cls = leaf_class(S, t, vgo, rebuilt, n)
+            owners = [o for o in entry["B"][key]["opts"] if any(a["path"][0] == n for a in o["asgs"])]
+            if owners and all(len(o["asgs"]) > 1 for o in owners):
+                cls += "/via-multi-argument-option"
             ctx.fail("C14/go/rebuilds/%s" % cls,
                      "value %s: the rebuilt object %s differs at field %s (default %s)" % (sc.dumps(vgo), sc.dumps(rebuilt), n, sc.dumps(Dr[key])),
                      dict(base, rebuilt=rebuilt, differing_fields=diff))
-        elif len(samples) < 3 and (hash(cid) + ctx.seed) % 37 == 0:
+        elif len(samples) < 3 and (zlib.crc32(cid.encode()) + ctx.seed) % 37 == 0:
             samples.append({"package": u["pkg"], "entry": entry["name"], "type": key, "value": vgo, "converter_output": texts[cid], "rebuilt": rebuilt})
         # exactly once: every call chain of the expression against the value it stands for
         w = Walker(entry, u)
@@ -452,6 +479,9 @@ def run(ctx):
                 rel = "missing" if c < wnt else "repeated"
                 cls = "%s:%s@%s/%s:%s" % (rel, a["m"], "field" if len(a["path"]) == 1 else "nested-path", arg_kind(S, ft),
                                           value_feature(at_path(nv, a["path"])))
+                if len(o["asgs"]) > 1:
+                    absent = [a2["path"][-1] for a2 in o["asgs"] if bc.canon(at_path(nv, a2["path"])) is None]
+                    cls = "%s:multi-argument-option%s" % (rel, ":some-target-absent" if absent else "")
                 ctx.fail("C14/go/exactly-once/%s" % cls,
                          "value %s of %s: option %s appears %d time(s) in the converter output, needed %d" % (sc.dumps(nv), nkey, o["name"], c, wnt),
                          dict(base, chain_of=nkey, chain_value=nv, option=o["name"], count=c, needed=wnt, counts=dict(counts)))
@@ -510,7 +540,7 @@ def run(ctx):
         "rule": "one evaluation = one (catalogue entry, input format, builder type, value): the value is decoded into the generated Go type, the "
                 "generated converter is run, its output is compiled inside `<text>.Build()` and executed; non-trivial = the expression compiled "
                 "and was executed. TLC states = values of BuilderMC (Mode values) plus one state per trace record of BuilderTrace",
-        "tlc_values": n_values, "units_used": sorted(u["pkg"] for u in units),
+        "tlc_values": n_values, "tlc_two_place_values": n_pairs, "units_used": sorted(u["pkg"] for u in units),
         "entries": [batch.cat[i]["name"] for i in batch.ids],
         "units": dict(status), "units_not_observed": dict(not_exec), "values_skipped": dict(skipped),
         "chain_alignment_gaps": gaps, "per_clause": dict(per), "timing": batch.timing, "binding_selftest": binding,
@@ -520,7 +550,8 @@ def run(ctx):
     }
     assumptions = [
         "bounded, sampled universe: the builder catalogue of spec/BuilderMC.tla; values = the documents of Semantics!Docs the schema accepts "
-        "(base document and its one-place variants, with all and with no optional members) for the root and every named struct type",
+        "(base document and its one-place variants, with all and with no optional members) for the root and every named struct type; "
+        "thorough tier: also root values differing from the base document at two members (one input format per entry)",
         "a value is what json.Unmarshal makes of the document in the generated Go type (compared through its own json.Marshal); objects are "
         "compared on encoded JSON where an absent / null collection and an empty one are one value; `differs from the builder's defaults` is "
         "decided against the REAL freshly constructed builder's object, field by field of the built type",
